@@ -829,7 +829,7 @@ namespace xtl
     inline temporary_xcomplex_t<CTR, CTI, B>
     operator+(const xcomplex<CTR, CTI, B>& rhs) noexcept
     {
-        return rhs;
+        return temporary_xcomplex_t<CTR, CTI, B>(rhs);
     }
 
     template <class CTR, class CTI, bool B>
